@@ -42,16 +42,15 @@ CLAIMED["C01"] = dict(
     text="Theorems (coq/Properties/C01.v), for every adapter of the eight classes (flags regenerated from adapters.py/align.py), every threshold table and every read: "
     "a reported match has coordinates inside adapter and read, obeys the documented placement rule of its type, covers at least min_overlap adapter characters, "
     "has errors <= thr(non-N adapter characters aligned) and the documented removal side (C01_sound_partial, by an invariant on every origin stored in the DP column of the "
-    "line-by-line model of Aligner.locate); the reported number of errors is ACHIEVED by an alignment of the two reported intervals under the configured wildcard rules and indel cost "
-    "(C01_locate_errors_achieved for all 16 flag sets, C01_errors_achieved for all classes incl. the one aligning reversed strings; a second invariant on every DP cell within the error "
-    "budget, cells left stale by the Ukkonen cut-off shown irrelevant; C01_threshold_tables discharges the hypothesis on thresholds for every non-negative non-decreasing table): hence "
-    "true edit distance <= reported errors <= tolerance, the occurrence is genuine; for the comparers (anchored, no indels) the error count is exactly the Hamming distance (C01_comparer_exact); "
-    "for every class whose aligner may stop anywhere in the read (all except the anchored and the non-internal 3' adapters), indels enabled or disabled (indel cost 1 / 100000), the reported errors are EXACTLY the edit distance "
-    "of the two reported intervals -- achieved, and no alignment of them is cheaper (C01_errors_exact, C01_locate_errors_minimal: lower-bound invariant on every DP cell over all admissible "
-    "starts, diagonal monotonicity of the edit distance for the Ukkonen cut-off). PARTIAL in one respect: the lower bound (errors <= true distance) for SuffixAdapter with indels and "
-    "NonInternalBackAdapter is not a theorem; it is covered by the correspondence (model = Aligner.locate / match_to on all 16 flag sets and 8 "
-    "classes) plus the textbook-distance oracle run on the implementation.",
-    technique="Coq proof (two invariants over the column fold of a line-by-line model of Aligner.locate; inductive edit-script relation closed under reversal) + translators (tables, flags, scores) + extracted-model differential correspondence; oracle search",
+    "line-by-line model of Aligner.locate); the reported number of errors is EXACTLY the edit distance of the two reported intervals under the configured wildcard rules and indel cost "
+    "(1 with indels, 100000 without), for every class that uses the aligner: it is achieved by an alignment (C01_errors_achieved: upper-bound invariant with an edit-script witness on "
+    "every DP cell within the error budget; cells left stale by the Ukkonen cut-off shown irrelevant; the early exit on an exact match handled by score bounds) and no alignment of the "
+    "two intervals is cheaper (C01_errors_exact, C01_locate_errors_minimal, C01_locate_errors_minimal_tail: lower-bound invariant over all admissible start positions; diagonal "
+    "monotonicity of the edit distance justifies the cut-off; for the classes that must end at the read end the DP starts in a later column with over-estimated costs, shown harmless by a "
+    "further invariant); for the comparers (anchored, no indels) the error count is exactly the Hamming distance (C01_comparer_exact); C01_threshold_tables discharges the hypothesis on "
+    "thresholds for every non-negative non-decreasing table. The property's statement is thereby proved on the model for all eight classes; tie to the code: correspondence (model = "
+    "Aligner.locate / match_to on all 16 flag sets and 8 classes, millions of cases) plus the textbook-distance oracle run on the implementation.",
+    technique="Coq proof (three invariants over the column fold of a line-by-line model of Aligner.locate; inductive edit-script relation with inversion, closed under reversal) + translators (tables, flags, scores) + extracted-model differential correspondence; oracle search",
     design="6/C01",
     note=TB + " The float comparison cost <= L*rate is modelled as cost <= thr[L] with thr[L] = int(L*rate) computed in CPython by the code's own expression; the harness asserts every table it generates is non-negative and non-decreasing.",
 )
